@@ -25,6 +25,10 @@ class Filt:
     def lemma(self, name, cond):
         self._ctx.lemma(name, cond)
 
+    def hunt(self, name, cond, note=None):
+        if name.startswith(self._pre):
+            self._ctx.hunt(name, cond, note)
+
     def wants(self, prefix):
         return prefix in self._pre
 
